@@ -891,3 +891,12 @@ def _dom_text(tier, seed):
             for e in entries:
                 yield dict(call=(lambda: None), args=[], ghost=dict(table=t, delim=delim, entry=e),
                            key="%s delim=%r %s n=%d" % (dt.descr, delim, e, n))
+    # a text table longer than any block a writer or reader might work in, fields in both byte orders
+    big = np.zeros(70001 if tier == "quick" else 300007, dtype=[("id", "<i4"), ("flux", ">f8"), ("k", ">i2"), ("tag", "S3"), ("m", "<u2", (2,))])
+    big["id"] = np.arange(big.size) * 7 - 100000
+    big["flux"] = np.arange(big.size) * 0.125 - 1000.0
+    big["k"] = (np.arange(big.size) * 37) % 30011 - 15000
+    big["tag"] = np.array([b"ab", b"c", b"xyz", b""])[np.arange(big.size) % 4]
+    big["m"] = (np.arange(big.size * 2).reshape(-1, 2) * 11) % 65521
+    for delim, e in ((",", "sfile"), (" ", "Recfile+nrows")) if tier == "quick" else ((",", "sfile"), (" ", "Recfile+nrows"), ("\t", "SFile"), (":", "Recfile")):
+        yield dict(call=(lambda: None), args=[], ghost=dict(table=big, delim=delim, entry=e), key="%d rows, mixed byte orders, delim=%r %s" % (big.size, delim, e))
